@@ -9,6 +9,8 @@ direction `View` (forward: out-chains / `to`; reverse: in-chains / `from`) and h
 import AgdbSearch.Lemmas.GraphWF
 import AgdbSearch.Lemmas.Bfs
 import AgdbSearch.Lemmas.Dfs
+import AgdbSearch.Lemmas.GraphOps
+import AgdbSearch.Lemmas.NoPanic
 namespace AgdbSearch
 
 /-- The unconditional traversal: `SearchImpl::search` with a handler answering `Continue(true)`. -/
@@ -192,6 +194,23 @@ theorem C14_graph_terminates {σ : Type} (g : Graph) (hwf : g.wfB = true) (alg :
     unfold Graph.fuel
     cases fwd <;> simp only [Graph.view, if_true, Bool.false_eq_true, if_false] <;> omega
   omega
+
+/-- **C14 after every history**: for every state of the abstract graph reachable from the empty database by any
+sequence of node / edge insertions, removals (with id reuse) and value insertions (`Graph.Reachable`,
+Lemmas/GraphOps.lean: every operation preserves `Graph.wfB`), every existing origin (node or edge), both directions
+and both algorithms: the unconditional search terminates within the model's fuel and returns the origin first,
+nothing twice, and exactly the reachable elements. -/
+theorem C14_every_history (g : Graph) (hr : g.Reachable) (alg : Alg) (fwd : Bool) (o : Int)
+    (ho : g.isElem o = true) :
+    ∃ xs, searchGraph false g alg (g.view fwd) (evalConds false g .nil) o 0 0 = .ok xs ∧
+      xs.head? = some o ∧ xs.Nodup ∧ ∀ x, x ∈ xs ↔ Reach (g.view fwd) o x := by
+  have hwf := reachable_wfB hr
+  have hterm := C14_graph_terminates g hwf alg fwd o ho allH ()
+  rcases run_ok_or_fuel (gstep false alg (g.view fwd)) allH g.fuel (gsInit o) () with ⟨xs, hres⟩ | hres
+  · have h' : searchGraph false g alg (g.view fwd) (evalConds false g .nil) o 0 0 = .ok xs := by
+      rw [C14_model_is_search g alg _ o ho]; exact hres
+    exact ⟨xs, h', C14_graph_exact g hwf alg fwd o ho xs h'⟩
+  · exact absurd hres hterm
 
 /-! ### Order -/
 
